@@ -514,6 +514,9 @@ func replay(t *testing.T, h harness, path, out string) {
 	}
 	ro.SameHash = ro.Hash == vo.Hash
 	tr := r.Trace
+	if full := os.Getenv("VERIF_TRACE_OUT"); full != "" {
+		os.WriteFile(full, []byte(strings.Join(tr, "\n")+"\n"), 0o644)
+	}
 	if len(tr) > 200 {
 		tr = tr[len(tr)-200:]
 	}
